@@ -210,7 +210,7 @@ class Ctx:
         self.cov["tlc_runs"].append({"name": name, "module": module, "distinct": r.distinct,
                                      "generated": r.generated, "wall_s": round(r.wall, 1),
                                      "mode": "simulate" if simulate else "exhaustive",
-                                     "consts": {k: (v if not isinstance(v, (set, frozenset)) else sorted(v)) for k, v in (consts or {}).items()}})
+                                     "consts": {k: _brief(v) for k, v in (consts or {}).items()}})
         if expect_ok:
             if r.violated:
                 raise MachineryError("model theorem %s broken in %s (spec-internal failure, not a verdict on the code); see %s\n%s" % (r.violated, name, outpath, r.tail))
@@ -362,6 +362,9 @@ class Ctx:
         """items: mismatch dicts observed on the real code (each has 'prop').
         Only those of this property count.  confirm(item) -> bool re-executes the
         case in isolation; unconfirmed mismatches are machinery failures."""
+        spec = [m for m in items if m.get("prop") == "SPEC"]
+        if spec:
+            raise MachineryError("the specification contradicts itself on a logged case (not a verdict on the code): %s" % json.dumps(spec[0])[:1500])
         mine = [m for m in items if m.get("prop", self.prop) == self.prop]
         kf = load_known_findings()
         for m in mine:
@@ -424,10 +427,24 @@ class Ctx:
         return 1 if self.violations else 0
 
 
+def _deep(v):
+    if isinstance(v, (set, frozenset)):
+        return sorted(_deep(x) for x in v)
+    if isinstance(v, (list, tuple)):
+        return [_deep(x) for x in v]
+    if isinstance(v, dict):
+        return {k: _deep(x) for k, x in v.items()}
+    return v
+
+
+def _brief(v):
+    d = _deep(v)
+    t = json.dumps(d)
+    return d if len(t) <= 300 else "(%d items) %s..." % (len(d) if hasattr(d, "__len__") else 1, t[:120])
+
+
 def _jsonable(c):
-    if c is None:
-        return None
-    return {k: (sorted(v) if isinstance(v, (set, frozenset)) else v) for k, v in c.items()}
+    return None if c is None else _deep(c)
 
 
 def _shorten(x, n=400):
